@@ -538,6 +538,12 @@ proof fn lemma_tbl_op(op: Seq<usize>, size: int, dim: int)
 // ---------------------------------------------------------------------------------------------------------
 // PartialDSet
 // ---------------------------------------------------------------------------------------------------------
+// R21: an argument check of the library (`assert!(c)`, `assert_eq!(a, b)`): returns only if the condition holds, otherwise the call panics
+#[verifier::external_body]
+pub fn __guard(c: bool)
+    ensures c
+{ assert!(c); }
+
 //@ begin src/dsets.rs :: - :: struct PartialDSet | props=C01,C02,C04,C05
 //@ rw R0 /^(\s+)(\w+): /\1pub \2: /
 pub struct PartialDSet {
@@ -613,6 +619,85 @@ impl PartialDSet {
         }
         if ei != 0 {
             assert_eq!(ei, d);
+        }
+
+        let kd = self.idx(i, d);
+        let ke = self.idx(i, e);
+
+        self.op[kd] = e;
+        self.op[ke] = d;
+        proof {
+            reveal(tbl);
+            let dim = self.dim as int;
+            let o0 = old(self).op@;
+            let o1 = self.op@;
+            // (holds for either order of the two assignments: kd == ke only if d == e)
+            if kd == ke { lemma_idx_inj(dim, i as int, d as int, i as int, e as int); }
+            assert(o1 =~= o0.update(kd as int, e).update(ke as int, d));
+            assert forall|j: int, c: int| 0 <= j <= dim && 1 <= c <= self.size && !(j == i && (c == d || c == e))
+                implies #[trigger] tbl(o1, dim, j, c) == tbl(o0, dim, j, c) by {
+                lemma_idx_bound(self.size as int, dim, j, c);
+                if sidx(dim, j, c) == kd { lemma_idx_inj(dim, j, c, i as int, d as int); }
+                if sidx(dim, j, c) == ke { lemma_idx_inj(dim, j, c, i as int, e as int); }
+            }
+            assert(tbl(o1, dim, i as int, e as int) == d);
+            assert(tbl(o1, dim, i as int, d as int) == e) by {
+                if kd == ke { lemma_idx_inj(dim, i as int, d as int, i as int, e as int); }
+            }
+            assert forall|j: int, c: int| 0 <= j <= dim && 1 <= c <= self.size implies ({
+                let x = #[trigger] tbl(o1, dim, j, c);
+                x == 0 || (1 <= x <= self.size && tbl(o1, dim, j, x) == c)
+            }) by {
+                let x = tbl(o1, dim, j, c);
+                if j == i && c == d {
+                } else if j == i && c == e {
+                } else {
+                    let x0 = tbl(o0, dim, j, c);
+                    assert(x == x0);
+                    if x0 != 0 {
+                        assert(1 <= x0 <= self.size && tbl(o0, dim, j, x0) == c);
+                        // the partner of an untouched entry is untouched as well
+                        if j == i && (x0 == d || x0 == e) {
+                            // then c would be the old partner of d (resp. e), which is 0 or e (resp. d)
+                            assert(false);
+                        }
+                        assert(tbl(o1, dim, j, x0) == tbl(o0, dim, j, x0));
+                    }
+                }
+            }
+        }
+    }
+    //@ end
+
+    // R21: the SAME function once more, with its argument checks read as what they are at run time -- a call that fails one does not
+    // return (it panics), so behind `assert!(c)` the condition holds.  Verified against the contract WITHOUT the corresponding
+    // preconditions: whatever the arguments, a call that is accepted leaves a partial involution with only the two entries changed.
+    // (C02 "every operation is an involution" for every D-set the public mutator can build: the runtime checks are SUFFICIENT.)
+    //@ begin src/dsets.rs :: impl PartialDSet :: fn set | props=C02
+    //@ rw R21 /pub fn set\(/pub fn set_guarded(/
+    //@ rw R21 /^([ \t]*)assert!\((.*)\);$/\1__guard(\2);/
+    //@ rw R21 /^([ \t]*)assert_eq!\((.*), (.*)\);$/\1__guard(\2 == \3);/
+    pub fn set_guarded(&mut self, i: usize, d: usize, e: usize)
+        requires old(self).inv(),      // nothing is asked of the arguments
+        ensures final(self).inv(), final(self).size == old(self).size, final(self).dim == old(self).dim,
+            final(self).t(i as int, d as int) == e,
+            final(self).t(i as int, e as int) == d,
+            // frame: every other entry is unchanged
+            forall|j: int, c: int| 0 <= j <= old(self).dim && 1 <= c <= old(self).size && !(j == i && (c == d || c == e))
+                ==> #[trigger] final(self).t(j, c) == old(self).t(j, c),
+    {
+        __guard(i <= self.dim);
+        __guard(1 <= d && d <= self.size);
+        __guard(1 <= e && e <= self.size);
+
+        let di = self.op_unchecked(i, d);
+        let ei = self.op_unchecked(i, e);
+
+        if di != 0 {
+            __guard(di == e);
+        }
+        if ei != 0 {
+            __guard(ei == d);
         }
 
         let kd = self.idx(i, d);
